@@ -27,6 +27,7 @@ func init() {
 func pathFacts(from, to, barrier *ssa.BasicBlock, limit int) ([]map[string]bool, bool) {
 	var out []map[string]bool
 	complete := true
+	var path []*ssa.BasicBlock
 	var walk func(b *ssa.BasicBlock, facts map[string]bool, onPath map[*ssa.BasicBlock]bool)
 	walk = func(b *ssa.BasicBlock, facts map[string]bool, onPath map[*ssa.BasicBlock]bool) {
 		if len(out) >= limit {
@@ -45,20 +46,38 @@ func pathFacts(from, to, barrier *ssa.BasicBlock, limit int) ([]map[string]bool,
 			return
 		}
 		onPath[b] = true
-		defer delete(onPath, b)
+		path = append(path, b)
+		defer func() { delete(onPath, b); path = path[:len(path)-1] }()
 		last := b.Instrs[len(b.Instrs)-1]
 		if ifi, ok := last.(*ssa.If); ok && len(b.Succs) == 2 {
 			cond, flip := ifi.Cond, false
-			for {
-				u, ok := cond.(*ssa.UnOp)
-				if !ok || u.Op != token.NOT {
-					break
+			for i := 0; i < 8; i++ {
+				if u, ok := cond.(*ssa.UnOp); ok && u.Op == token.NOT {
+					cond, flip = u.X, !flip
+					continue
 				}
-				cond, flip = u.X, !flip
+				// a condition computed as a value (`a || b` in a switch case): the phi is resolved along the path
+				if _, isPhi := cond.(*ssa.Phi); isPhi {
+					if v := valueOnPath(cond, path); v != cond {
+						cond = v
+						continue
+					}
+				}
+				break
+			}
+			var fixed, known bool
+			if cst, ok := cond.(*ssa.Const); ok && cst.Value != nil {
+				fixed, known = constBoolValue(cst), true
 			}
 			key := expr(cond)
 			for i, s := range b.Succs {
 				truth := (i == 0) != flip
+				if known {
+					if fixed == truth {
+						walk(s, facts, onPath)
+					}
+					continue
+				}
 				if old, had := facts[key]; had && old != truth {
 					continue // infeasible: the same condition was decided the other way earlier on this path
 				}
